@@ -11,12 +11,18 @@ def _case(rng, s, p=0.15):
     return s.upper() if rng.random() < p else s
 
 
+KNOWN_EXTERNAL = ["mpi", "omp_lib", "iso_c_binding", "iso_fortran_env", "ieee_arithmetic", "openacc", "mpi_f08"]
+
+
 def gen_modgraph(rng, profile=None):
     """profile keys: max_mods, max_ents, dup_names (bool), unknown_uses (bool),
-    extras (bool: submodule, blockdata, namelist, extra program), prefix (str for
-    all names -- used to make a second project's names disjoint), n_files."""
+    extras (bool: submodule, blockdata, namelist, extra program, type/call families,
+    duplicate module names), prefix (str for all names -- used to make a second
+    project's names disjoint), n_files, inner_uses (USE inside module procedures and
+    interface bodies), intrinsic_names (project modules named like modules FORD knows
+    as intrinsic/external)."""
     pr = dict(max_mods=6, min_mods=2, max_ents=5, dup_names=False, unknown_uses=False, extras=False,
-              prefix="", progs=True)
+              prefix="", progs=True, inner_uses=True, intrinsic_names=True, dup_modules=False, families=False)
     pr.update(profile or {})
     px = pr["prefix"]
     nm = rng.randint(pr["min_mods"], pr["max_mods"])
@@ -24,6 +30,7 @@ def gen_modgraph(rng, profile=None):
     exports_of = {}
     tables = {}
     tracer = [0]
+    history = {}   # module -> list of rename pair-lists already used (for ONLY / non-ONLY echoes)
 
     def tr():
         tracer[0] += 1
@@ -35,11 +42,12 @@ def gen_modgraph(rng, profile=None):
         fresh[0] += 1
         return "%sloc%d" % (px, fresh[0])
 
-    def gen_uses(candidates, own_names, max_uses=3):
+    def gen_uses(candidates, own_names, max_uses=3, min_uses=None):
         uses = []
         if not candidates:
             return uses
-        k = rng.randint(0 if rng.random() < 0.15 else 1, min(max_uses, len(candidates)))
+        lo = (0 if rng.random() < 0.15 else 1) if min_uses is None else min_uses
+        k = rng.randint(lo, max(lo, min(max_uses, len(candidates))))
         # bias towards the most recent modules: builds chains
         chosen = []
         pool = list(candidates)
@@ -55,12 +63,40 @@ def gen_modgraph(rng, profile=None):
         taken = set(own_names)
         for c in sorted(chosen):
             ex = exports_of[c]
-            names = sorted({n for cl in usemodel.CLASSES for n in ex[cl]} - taken)
-            form = rng.choice(["plain", "plain", "only", "only", "rename", "only+rename", "split"])
+            allnames = {n for cl in usemodel.CLASSES for n in ex[cl]}
+            names = sorted(allnames - taken)
+            form = rng.choice(["plain", "plain", "only", "only", "rename", "only+rename", "split", "echo", "only-empty"])
             prefix = rng.choice(["", "", "", "non_intrinsic", "::"])
+            if form == "only-empty":
+                if rng.random() < 0.3:
+                    uses.append({"mod": c, "only": [], "renames": [], "prefix": prefix})
+                    continue
+                form = "only"
+            if form == "echo":
+                # the same rename list as an earlier USE of this module, in the other form (ONLY <-> no ONLY)
+                done = False
+                for pairs, was_only in history.get(c, []):
+                    locs = {l for l, _ in pairs}
+                    rems = {r for _, r in pairs}
+                    if not rems <= allnames or locs & taken:
+                        continue
+                    if was_only:
+                        rest = allnames - rems
+                        if rest & taken:
+                            continue
+                        uses.append({"mod": c, "only": None, "renames": [list(x) for x in pairs], "prefix": prefix})
+                        taken.update(rest)
+                    else:
+                        uses.append({"mod": c, "only": [list(x) for x in pairs], "renames": [], "prefix": prefix})
+                    taken.update(locs)
+                    done = True
+                    break
+                if done:
+                    continue
+                form = "only+rename"
             if not names or form == "plain":
                 # plain import: every export becomes visible; skip if it would clash
-                if any(n in taken for cl in usemodel.CLASSES for n in ex[cl]):
+                if any(n in taken for n in allnames):
                     # restrict to non clashing names through ONLY
                     if not names:
                         continue
@@ -70,13 +106,14 @@ def gen_modgraph(rng, profile=None):
                 taken.update(names)
                 continue
             if form == "rename":
-                clash = any(n in taken for cl in usemodel.CLASSES for n in ex[cl])
+                clash = any(n in taken for n in allnames)
                 if clash:
                     form = "only+rename"
                 else:
                     rn = rng.sample(names, min(len(names), rng.randint(1, 2)))
                     ren = [[local_name(), r] for r in rn]
                     uses.append({"mod": c, "only": None, "renames": ren, "prefix": prefix})
+                    history.setdefault(c, []).append((ren, False))
                     taken.update(n for n in names if n not in rn)
                     taken.update(l for l, _ in ren)
                     continue
@@ -89,6 +126,8 @@ def gen_modgraph(rng, profile=None):
                 else:
                     items.append([r, r])
             taken.update(l for l, _ in items)
+            if form == "only+rename" and all(l != r for l, r in items):
+                history.setdefault(c, []).append((items, True))
             if form == "split" and len(items) > 1:
                 h = len(items) // 2
                 uses.append({"mod": c, "only": items[:h], "renames": [], "prefix": prefix})
@@ -97,14 +136,24 @@ def gen_modgraph(rng, profile=None):
                 uses.append({"mod": c, "only": items, "renames": [], "prefix": prefix})
         return uses
 
+    labels = list(range(nm))
+    rng.shuffle(labels)   # the order of module names is independent of the dependency order
+    special = {}
+    if pr["intrinsic_names"] and not px:
+        for i in range(nm):
+            if rng.random() < 0.1 and len(special) < 2:
+                cand = rng.choice(KNOWN_EXTERNAL)
+                if cand not in special.values():
+                    special[i] = cand
     for i in range(nm):
-        name = "%sm%d" % (px, i)
+        name = special.get(i) or "%sm%d" % (px, labels[i])
         default = rng.choice([None, None, "public", "private", "private"])
         mod = {"name": name, "default": default, "ents": [], "uses": [], "pub_imports": [], "tr": tr(),
                "unknown": []}
         ne = rng.randint(1, pr["max_ents"])
+        kinds = KINDS + (["iface"] if pr["inner_uses"] else [])
         for j in range(ne):
-            kind = rng.choice(KINDS)
+            kind = rng.choice(kinds)
             ename = "%se%d%s%d" % (px, i, kind[0], j)
             if pr["dup_names"] and rng.random() < 0.25 and kind in ("sub", "func", "type", "var"):
                 ename = "%s%s" % (px, rng.choice(["helper", "util", "state"]))
@@ -117,7 +166,7 @@ def gen_modgraph(rng, profile=None):
                 access = rng.choice([None, None, "public", "private"])
                 if kind == "var" and rng.random() < 0.15:
                     access = "protected"
-            form = "stmt" if kind in ("sub", "func", "generic", "absint") else rng.choice(["attr", "stmt"])
+            form = "stmt" if kind in ("sub", "func", "generic", "absint", "iface") else rng.choice(["attr", "stmt"])
             if access == "protected":
                 form = "attr"
             ent = {"name": ename, "kind": kind, "access": access, "form": form, "tr": tr()}
@@ -129,8 +178,10 @@ def gen_modgraph(rng, profile=None):
             mod["ents"].append(ent)
         own_names = {e["name"] for e in mod["ents"]}
         mod["uses"] = gen_uses([m["name"] for m in mods], own_names)
+        present = {m["name"] for m in mods} | {name} | set(special.values())
         if pr["unknown_uses"] and rng.random() < 0.6:
-            mod["unknown"] = rng.sample(UNKNOWN_MODS, rng.randint(2, 4))
+            pool = [u for u in UNKNOWN_MODS if u not in present]
+            mod["unknown"] = rng.sample(pool, min(len(pool), rng.randint(2, 4)))
         imp = usemodel.imports(mod["uses"], exports_of)
         if default == "private":
             imported = sorted({n for cl in usemodel.CLASSES for n in imp[cl]})
@@ -151,6 +202,22 @@ def gen_modgraph(rng, profile=None):
                 e["vtype"] = rng.choice(vis_types)
         exports_of[name] = usemodel.exports(mod, imp)
         tables[name] = usemodel.merge(imp, usemodel.own_table(mod))
+        # inner scopes: USE statements inside module procedures and interface bodies, which may be the
+        # module's only reference to the used module
+        visible = {n for cl in usemodel.CLASSES for n in tables[name][cl]}
+        for e in mod["ents"]:
+            if e["kind"] == "iface" or (pr["inner_uses"] and e["kind"] == "sub" and rng.random() < 0.35
+                                        and not any(g.get("specific") == e["name"] for g in mod["ents"])):
+                e["uses"] = gen_uses([m["name"] for m in mods], visible, max_uses=2, min_uses=1 if mods else 0)
+                iimp = usemodel.imports(e["uses"], exports_of)
+                tcands = sorted(iimp["types"]) if e["kind"] == "iface" else sorted(set(iimp["types"]) | set(vis_types))
+                if tcands and rng.random() < 0.8:
+                    e["argtype"] = rng.choice(tcands)
+            if e["kind"] == "sub" and pr.get("proc_calls", True) and rng.random() < 0.4:
+                pc = sorted((set(tables[name]["procs"]) | set(usemodel.imports(e.get("uses") or [], exports_of)["procs"])) - {e["name"]})
+                pc = [c for c in pc if not any(x["name"] == c and x["kind"] in ("generic", "iface") for x in mod["ents"])]
+                if pc:
+                    e["calls"] = rng.sample(pc, min(len(pc), rng.randint(1, 2)))
         mods.append(mod)
 
     progs, extprocs = [], []
@@ -161,8 +228,10 @@ def gen_modgraph(rng, profile=None):
                     for j in range(rng.randint(0, 2))]
             uses = gen_uses([m["name"] for m in mods], {e["name"] for e in ents})
             imp = usemodel.imports(uses, exports_of)
+            present = {m["name"] for m in mods}
             unit = {"name": pname, "uses": uses, "ents": ents, "tr": tr(), "calls": [], "vtypes": [],
-                    "unknown": rng.sample(UNKNOWN_MODS, 2) if pr["unknown_uses"] and rng.random() < 0.4 else []}
+                    "unknown": rng.sample([u for u in UNKNOWN_MODS if u not in present], 2)
+                    if pr["unknown_uses"] and rng.random() < 0.4 else []}
             procs = sorted(imp["procs"])
             if procs:
                 unit["calls"] = rng.sample(procs, min(len(procs), rng.randint(1, 3)))
@@ -200,10 +269,21 @@ def gen_modgraph(rng, profile=None):
             # procedures of different hosts can
             extras.append({"kind": "hosts", "name": "%shost" % px, "tr": tr(), "n": rng.randint(2, 3),
                            "inner": "%sinner" % px})
+    if pr["families"]:
+        if rng.random() < 0.5:
+            extras.append({"kind": "typefam", "name": "%stfam" % px, "tr": tr(), "n": rng.randint(2, 4)})
+        if rng.random() < 0.5:
+            extras.append({"kind": "callfam_h", "name": "%scfh" % px, "tr": tr()})
+            for k in range(rng.randint(2, 3)):
+                extras.append({"kind": "callfam_u", "name": "%scfu%d" % (px, k), "tr": tr(), "helper_mod": "%scfh" % px,
+                               "helper": "%scfhhelper" % px, "setup": "%ssetup" % px})
+    if pr["dup_modules"] and rng.random() < 0.35:
+        victim = rng.choice(mods)
+        extras.append({"kind": "dupmod", "name": "%sdup_of_%s" % (px, victim["name"]), "modname": victim["name"], "tr": tr()})
 
     # distribute units over files
     units = [("module", m["name"]) for m in mods] + [("program", p["name"]) for p in progs] + \
-            [("extproc", x["name"]) for x in extprocs] + [("extra", e["name"]) for e in extras]
+            [("extproc", x["name"]) for x in extprocs] + [("extra", e["name"]) for e in extras if e["kind"] != "dupmod"]
     nf = pr.get("n_files") or rng.randint(1 if len(units) < 2 else 2, min(6, len(units)))
     files = {}
     fnames = ["src/%sf%d.f90" % (px, i) for i in range(nf)]
@@ -214,6 +294,9 @@ def gen_modgraph(rng, profile=None):
     for i, u in enumerate(order):
         f = fnames[i] if i < nf else rng.choice(fnames)
         files.setdefault(f, []).append(list(u))
+    for e in extras:
+        if e["kind"] == "dupmod":   # an equally named module always lives in a file of its own
+            files["src/%s%s.f90" % (px, rng.choice(["a_dup", "zz_dup"]))] = [["extra", e["name"]]]
     world = {"mods": mods, "progs": progs, "extprocs": extprocs, "extras": extras, "files": files,
              "prefix": px}
     return world
@@ -225,7 +308,7 @@ def _use_line(rng_case, u):
     s = pre + u["mod"]
     if u.get("only") is not None:
         items = [(l if l == r else "%s => %s" % (l, r)) for l, r in u["only"]]
-        s += ", only: " + ", ".join(items)
+        s += ", only: " + ", ".join(items) if items else ", only:"
     elif u.get("renames"):
         s += ", " + ", ".join("%s => %s" % (l, r) for l, r in u["renames"])
     return s
@@ -278,7 +361,24 @@ def render_module(mod, rng):
             L.append("    end subroutine %s" % e["name"])
             L.append("  end interface")
         elif k == "sub":
-            contains += ["  subroutine %s()" % e["name"], "    !! %s" % e["tr"], "  end subroutine %s" % e["name"]]
+            arg = "a" if (e.get("argtype") or e.get("uses")) else ""
+            contains += ["  subroutine %s(%s)" % (e["name"], arg), "    !! %s" % e["tr"]]
+            for u in e.get("uses") or []:
+                contains.append("    " + _use_line(rng, u))
+            if arg:
+                contains.append("    %s :: a" % ("type(%s)" % e["argtype"] if e.get("argtype") else "integer"))
+            for c in e.get("calls") or []:
+                contains.append("    call %s()" % c)
+            contains.append("  end subroutine %s" % e["name"])
+        elif k == "iface":
+            L.append("  interface")
+            L.append("    subroutine %s(a)" % e["name"])
+            L.append("      !! %s" % e["tr"])
+            for u in e.get("uses") or []:
+                L.append("      " + _use_line(rng, u))
+            L.append("      %s :: a" % ("type(%s)" % e["argtype"] if e.get("argtype") else "integer"))
+            L.append("    end subroutine %s" % e["name"])
+            L.append("  end interface")
         elif k == "func":
             contains += ["  integer function %s()" % e["name"], "    !! %s" % e["tr"],
                          "    %s = 1" % e["name"], "  end function %s" % e["name"]]
@@ -345,6 +445,28 @@ def render_extra(e, rng):
                   "  subroutine %s()" % inner, "    !! inner of %d" % i, "  end subroutine %s" % inner,
                   "end subroutine %s%d" % (e["name"], i), ""]
         return L
+    if k == "typefam":
+        n = e["name"]
+        L = ["module %s" % n, "  !! %s" % e["tr"], "  implicit none", "  type :: %s_base" % n, "    integer :: i", "  end type %s_base" % n]
+        for i in range(e["n"]):
+            L += ["  type, extends(%s_base) :: %s_c%d" % (n, n, i), "    integer :: j%d" % i, "  end type %s_c%d" % (n, i)]
+        L += ["  type :: %s_holder" % n]
+        for i in range(e["n"]):
+            L.append("    type(%s_c%d) :: h%d" % (n, i, i))
+        L += ["    type(%s_base) :: hb" % n, "  end type %s_holder" % n, "end module %s" % n]
+        return L
+    if k == "callfam_h":
+        return ["module %s" % e["name"], "  !! %s" % e["tr"], "  implicit none", "contains", "  subroutine %shelper()" % e["name"],
+                "  end subroutine %shelper" % e["name"], "end module %s" % e["name"]]
+    if k == "callfam_u":
+        n = e["name"]
+        return ["module %s" % n, "  !! %s" % e["tr"], "  use %s" % e["helper_mod"], "  implicit none", "  private", "  public :: %s_run" % n,
+                "contains", "  subroutine %s()" % e["setup"], "    !! setup of %s" % n, "    call %s()" % e["helper"],
+                "  end subroutine %s" % e["setup"], "  subroutine %s_run()" % n, "    call %s()" % e["setup"],
+                "  end subroutine %s_run" % n, "end module %s" % n]
+    if k == "dupmod":
+        return ["module %s" % e["modname"], "  !! second definition %s" % e["tr"], "  implicit none",
+                "  integer :: dup_marker_%s" % e["modname"], "end module %s" % e["modname"]]
     raise ValueError(k)
 
 
@@ -409,7 +531,7 @@ def normalize(world):
             avail = {n for c in usemodel.CLASSES for n in ex[c]}
             if u.get("only") is not None:
                 items = [it for it in u["only"] if it[1] in avail]
-                if not items:
+                if not items and u["only"]:
                     continue
                 u = dict(u, only=items)
             elif u.get("renames"):
@@ -434,6 +556,18 @@ def normalize(world):
                 seen.add(e["name"])
             elif e.get("vtype") and e["vtype"] not in alltypes:
                 del e["vtype"]
+        vis = {n for c in usemodel.CLASSES for n in imp[c]} | {e["name"] for e in mod["ents"]}
+        for e in mod["ents"]:
+            if e.get("uses") is not None:
+                e["uses"] = fix_uses(e["uses"])
+            iimp = usemodel.imports(e.get("uses") or [], exports_of)
+            if e.get("argtype"):
+                ok = set(iimp["types"]) if e["kind"] == "iface" else set(iimp["types"]) | alltypes
+                if e["argtype"] not in ok:
+                    del e["argtype"]
+            if e.get("calls"):
+                okc = set(imp["procs"]) | set(iimp["procs"]) | {x["name"] for x in mod["ents"] if x["kind"] in ("sub", "func")}
+                e["calls"] = [c for c in e["calls"] if c in okc]
         if mod.get("smod_iface") and not any(x["kind"] == "submodule" and x["parent"] == mod["name"]
                                              for x in world.get("extras", [])):
             del mod["smod_iface"]
@@ -512,6 +646,18 @@ def shrink_candidates(world):
                 w = cp()
                 w[key][i]["default"] = None
                 yield "default access none", normalize(w)
+    for i, m in enumerate(world["mods"]):
+        for j, e in enumerate(m["ents"]):
+            if e.get("uses"):
+                for q in reversed(range(len(e["uses"]))):
+                    w = cp()
+                    del w["mods"][i]["ents"][j]["uses"][q]
+                    yield "drop inner use", normalize(w)
+            for k in ("argtype", "calls"):
+                if e.get(k):
+                    w = cp()
+                    del w["mods"][i]["ents"][j][k]
+                    yield "clear %s" % k, normalize(w)
     for i, m in enumerate(world["mods"]):
         for j, e in enumerate(m["ents"]):
             for k in ("extends", "comp_type", "vtype", "access"):
